@@ -7,8 +7,19 @@ _KINDS = {"cfg_tof": 1, "cfg_nontof": 1, "cfg_additive": 1, "cfg_no_additive": 1
           "cfg_no_subset_sensitivities": 1, "cfg_sensitivity_supplied": 1, "cfg_prior": 1}
 
 
-def _scaled(f, extra):
+# re-configuration histories (every second case, not in the memcheck 'orders' mode): counters per 100 histories run
+_SETTINGS = ["use_subset_sensitivities", "num_subsets", "zero_seg0_end_planes", "max_segment_num_to_process", "additive_proj_data",
+             "normalisation", "proj_data", "sensitivity_source", "prior", "projector_pair"]
+_HIST = {"history_runs": 100, "history_completed": 90, "history_re_set_ups": 180, "history_intermediate_requests": 650,
+         "history_redundant_setter_calls": 150, "history_steps_reading_other_sensitivities": 70,
+         "history_values_compared_with_reference": 150000, "history_values_compared_bitwise_with_fresh_object": 150000}
+_HIST.update({"history_change_" + k: 15 for k in _SETTINGS})        # setting differs between two consecutive set_up()s
+_HIST.update({"history_last_change_" + k: 6 for k in _SETTINGS})    # ... between the last two (the verified configuration)
+
+
+def _scaled(f, extra, hist=0):
     d = {k: max(1, int(v * f)) for k, v in _KINDS.items()}
+    d.update({k: max(1, int(v * hist)) for k, v in _HIST.items()})
     d.update(extra)
     return d
 
@@ -30,35 +41,58 @@ prop("C05",
      min_nontrivial={"quick": 900, "thorough": 8000},
      min_obs={"quick": _scaled(50, {"bins_in_P": 300000, "nonzeros_in_P": 3000000, "value_checks": 7000,
                                     "gradient_voxels_checked": 800000, "sensitivity_voxels_checked": 400000,
-                                    "hessian_checks": 200000, "orders_checked": 12000, "subsets_evaluated": 1800}),
+                                    "hessian_checks": 200000, "orders_checked": 12000, "subsets_evaluated": 1800}, hist=6),
               "thorough": _scaled(300, {"bins_in_P": 2000000, "orders_checked": 100000, "value_checks": 50000,
-                                        "hessian_checks": 1500000, "subsets_evaluated": 15000})},
+                                        "hessian_checks": 1500000, "subsets_evaluated": 15000}, hist=45)},
      rule=("case = one generated configuration: cylindrical scanner with 8..24 (thorough 32) detectors per ring and 1..4 (5) rings, "
            "span/max ring difference/view mashing/tangential truncation/arc-correction, TOF with 3 or 5 timing positions, odd square "
            "image of 3..9 (11) voxels across; ray-tracing matrix with random symmetry/cache/ray settings; random positive image, "
            "Poisson-like counts (0 or >= 1), optional additive term, trivial / proj-data / chained normalisation (TOF and non-TOF norm "
            "data), zero_seg0_end_planes, max_segment_num_to_process, use_subset_sensitivities, sensitivities recomputed or read back "
-           "from files, optional QuadraticPrior, random number of subsets in 1..num_views; EVERY subset is evaluated.  The explicit "
+           "from files, optional QuadraticPrior, random number of subsets in 1..num_views; EVERY subset is evaluated.  Every second "
+           "case additionally takes ONE objective-function object through a random history of 2..5 configurations that ends in the "
+           "case's configuration: between two set_up() calls 1..3 of {use_subset_sensitivities, num_subsets, zero_seg0_end_planes, "
+           "max_segment_num_to_process, additive term (none / the case's / other data), normalisation object (the case's / trivial / "
+           "other non-TOF / other TOF norm data), measured data object, sensitivities recomputed or read from (other) files, prior, "
+           "projector pair (same or other symmetry/cache/ray settings)} are changed through the public setters in random order, some "
+           "setters are called again with an unchanged value, and a random selection of value / sub-gradient / gradient+sensitivity / "
+           "subset and total sensitivity / full gradient / Hessian product / add_subset_sensitivity / penalised gradient is "
+           "requested after each intermediate set_up; an intermediate configuration that set_up rejects ends the history without "
+           "verdict.  The explicit "
            "system matrix is extracted row by row from an identically configured matrix object and all quantities are recomputed "
            "in float64.  non-trivial = the explicit matrix has >= 50 non-zeros and at least one bin that takes part has a non-zero "
            "count; distinct = distinct configuration descriptor"),
      technique=("runtime monitoring: executable float64 reference model on the explicit system matrix, computed float32 rounding "
-                "band, 24-order first-use matrix on fresh objects, objects constructed in pre-filled storage so that reads of "
+                "band, 24-order first-use matrix on fresh objects, random re-configuration histories on one object compared with the "
+                "reference and bit for bit with a fresh object (a failing history is reduced to the settings that must change between "
+                "two set_up()s, which name the violation key), objects constructed in pre-filled storage so that reads of "
                 "never-initialised members are reproducible; ASan/UBSan/asserts; memcheck on the order matrix"),
      level_text=("for every generated configuration the value (absolute and differences), every subset gradient, gradient+sensitivity, "
                  "subset and total sensitivity and Hessian-times-vector returned by the real objective function are compared with the "
                  "documented model ybar = D(F lambda + a) evaluated in float64 on the explicit matrix, inside a rounding band derived "
                  "from operation counts; subset sums are compared with the full-data API and with a one-subset object, penalised "
                  "quantities with unpenalised minus the prior's share, and all 24 orders of first use of value / gradient / "
-                 "sensitivity / Hessian product on fresh objects must agree bit for bit"),
+                 "sensitivity / Hessian product on fresh objects must agree bit for bit; and on every second configuration one object that "
+                 "reaches the configuration through a history of 1..4 earlier configurations and set_up() calls (settings changed through "
+                 "the public setters, caches filled by requests in between) must return for every subset the gradient, "
+                 "gradient+sensitivity, subset sensitivity, value and Hessian product, and the full gradient, total sensitivity and "
+                 "penalised value/gradient, inside the same bands around the float64 reference AND bit for bit equal to the freshly "
+                 "configured object"),
      level_note=("trusted: the ~300-line reference model in harness/c05_loglik.cxx and ProjMatrixByBin::get_proj_matrix_elems_for_one_bin "
                  "as the definition of F (its geometric correctness is C03); MPI paths are not built; only the ray-tracing matrix "
                  "projector pair is exercised; TOF data with non-TOF sensitivities are compared with the documented non-TOF back "
-                 "projection, and the 'gradient+sensitivity minus gradient' clause is not evaluated there (TOF kernel truncation)"),
+                 "projection, and the 'gradient+sensitivity minus gradient' clause is not evaluated there (TOF kernel truncation); "
+                 "histories: results of the intermediate configurations are not examined; the class's use_tofsens flag has no setter "
+                 "and is switched on for good by a set_up that meets TOF-only norm data, so histories of a configuration whose "
+                 "sensitivity uses the non-TOF projector contain no TOF norm data; set_subsensitivity_filenames(\"\") is rejected by the "
+                 "library (boost::format), so a history never goes back to 'no file name'"),
      assumptions=["image index range is odd and square transaxially (the matrix symmetries need a symmetric range)",
                   "counts are kept a factor 20 below the documented quotient cap (1e4) of divide_and_truncate/accumulate_loglikelihood and "
                   "are 0 or >= 1, so the documented truncations never switch; the numerator truncation inside the Hessian product is "
                   "modelled with a 0.1% guard zone",
                   "Hessian input vectors are non-negative (the class rejects negative forward projections)",
-                  "a configuration rejected by set_up (unbalanced subsets without subset sensitivities) is skipped"],
+                  "a configuration rejected by set_up (unbalanced subsets without subset sensitivities) is skipped; in a history an "
+                  "intermediate configuration rejected by set_up ends that history without verdict",
+                  "sensitivities 'read from file' at intermediate steps of a history are arbitrary positive images with the target's "
+                  "characteristics (the class accepts any such image as supplied sensitivity)"],
      )
